@@ -106,7 +106,7 @@ enum Phase<F> {
 #[cfg(feature = "tracing")]
 fn observe(callback: impl FnOnce()) {
     if let Err(payload) = std::panic::catch_unwind(std::panic::AssertUnwindSafe(callback)) {
-        let _ = std::panic::catch_unwind(std::panic::AssertUnwindSafe(move || drop(payload)));
+        tower_resilience_core::events::drop_panic_payload(payload);
     }
 }
 
